@@ -70,6 +70,7 @@ pub struct CheckCfg {
     pub max_single_faults: usize,
     pub multi_fault_plans: usize,
     pub kill_plans: usize,
+    pub permanent_plans: usize,
     pub layouts_per_scenario: usize,
     pub threads: usize,
     pub wall_limit_s: u64,
@@ -386,6 +387,7 @@ fn one_scenario(cfg: &CheckCfg, index: usize, known: &KnownFile) -> JobOut {
                         seam: "file".into(),
                         kind: "quota".into(),
                         arg: q,
+                        permanent: false,
                     },
                 }];
                 let r = run_case(&prep, &history, &plan, false, true);
@@ -417,6 +419,7 @@ fn one_scenario(cfg: &CheckCfg, index: usize, known: &KnownFile) -> JobOut {
                     seam: "process".into(),
                     kind: "kill".into(),
                     arg: at as u32,
+                    permanent: false,
                 },
             }];
             if !candidates.is_empty() && rng_fault.chance(1, 3) {
@@ -427,6 +430,52 @@ fn one_scenario(cfg: &CheckCfg, index: usize, known: &KnownFile) -> JobOut {
                 });
             }
             let r = run_case(&prep, &history, &plan, false, true);
+            account(&mut agg, cfg, &history, &layouts, &plan, &r, index, tainted);
+        }
+        // ---- a device that fails for good: from its n-th operation on, every write to the
+        // screen / the printer / the files (or every read of the console) fails ----
+        for _ in 0..cfg.permanent_plans {
+            let mut kinds: Vec<(usize, OpClass, SeamKind)> = base
+                .sites
+                .iter()
+                .filter(|(_, s)| matches!(s.class, OpClass::Write | OpClass::Read))
+                .map(|(p, s)| (*p, s.class, s.seam))
+                .collect();
+            kinds.sort();
+            kinds.dedup();
+            if kinds.is_empty() {
+                break;
+            }
+            let (pi, class, seam) = *rng_fault.pick(&kinds);
+            let count = base
+                .sites
+                .iter()
+                .filter(|(p, s)| *p == pi && s.class == class && s.seam == seam)
+                .count();
+            let nth = rng_fault.below(count.clamp(1, 10)) as u32;
+            let kind = if class == OpClass::Write {
+                FaultKind::Error(*rng_fault.pick(&[
+                    IoKind::StorageFull,
+                    IoKind::BrokenPipe,
+                    IoKind::Other,
+                ]))
+            } else {
+                FaultKind::Error(IoKind::Other)
+            };
+            let f = Fault {
+                addr: FaultAddr::From { nth },
+                class,
+                seam,
+                kind,
+            };
+            let plan = vec![PlanItem {
+                prog: pi,
+                fault: FaultSer::from_fault(&f),
+            }];
+            let r = run_case(&prep, &history, &plan, false, true);
+            if r.stats.iter().any(|s| !s.fired.is_empty()) {
+                *agg.fired.entry("device_failed_for_good".to_string()).or_insert(0) += 1;
+            }
             account(&mut agg, cfg, &history, &layouts, &plan, &r, index, tainted);
         }
         // ---- multi-fault plans (incl. transient faults on consecutive occurrences) ----
